@@ -1,9 +1,9 @@
-use std::collections::BTreeSet;
+use std::collections::{BTreeSet, HashSet};
 
-use common_lang_types::{Diagnostic, DiagnosticVecResult, Location};
+use common_lang_types::{Diagnostic, DiagnosticVecResult, EntityName, Location, SelectableName};
 use isograph_lang_types::{
-    ClientScalarSelectableDirectiveSet, DefinitionLocation, SelectionType,
-    from_isograph_field_directives,
+    ClientScalarSelectableDirectiveSet, DefinitionLocation, ScalarSelectionDirectiveSet,
+    SelectionType, from_isograph_field_directives,
 };
 use pico_macros::memo;
 use prelude::{ErrClone, Postfix};
@@ -14,8 +14,9 @@ use crate::{
     entity_not_defined_diagnostic, flattened_entities, flattened_entity_named,
     flattened_selectable_named, flattened_selectables, flattened_server_object_entities,
     multiple_selectable_definitions_found_diagnostic, parse_iso_literals, process_iso_literals,
-    selectables, server_id_selectable, validate_selection_sets::validate_selection_sets,
-    validate_use_of_arguments, validated_entrypoints,
+    reader_selection_set_map, selectable_named, selectables, server_id_selectable,
+    validate_selection_sets::validate_selection_sets, validate_use_of_arguments,
+    validated_entrypoints, visit_selection_set::visit_selection_set,
 };
 
 /// In the world of pico, we minimally validate. For example, if the
@@ -41,6 +42,8 @@ pub fn validate_entire_schema<TCompilationProfile: CompilationProfile>(
     errors.extend(validate_client_selectables_do_not_redefine_server_selectables(db));
 
     errors.extend(validate_selection_sets(db));
+
+    errors.extend(validate_no_client_selectable_selects_itself(db));
 
     maybe_extend(
         &mut errors,
@@ -239,6 +242,108 @@ fn validate_client_selectables_do_not_redefine_server_selectables<
             )
         })
         .collect()
+}
+
+/// Validate that no client field or pointer selects itself, directly or through other client
+/// fields and pointers: the selections of a client selectable are merged into every query that
+/// selects it, so that would be an infinite selection set. A @loadable selection is fetched by a
+/// query of its own, so a client field may select itself loadably.
+fn validate_no_client_selectable_selects_itself<TCompilationProfile: CompilationProfile>(
+    db: &IsographDatabase<TCompilationProfile>,
+) -> Vec<Diagnostic> {
+    let mut errors = vec![];
+    let mut visited = HashSet::new();
+
+    for key in client_selectable_declaration_map_from_iso_literals(db)
+        .item
+        .keys()
+    {
+        visit_client_selectables_selected_by(db, *key, &mut vec![], &mut visited, &mut errors);
+    }
+
+    errors
+}
+
+fn visit_client_selectables_selected_by<TCompilationProfile: CompilationProfile>(
+    db: &IsographDatabase<TCompilationProfile>,
+    key: (EntityName, SelectableName),
+    // the client selectables through which we reached key
+    path: &mut Vec<(EntityName, SelectableName)>,
+    visited: &mut HashSet<(EntityName, SelectableName)>,
+    errors: &mut Vec<Diagnostic>,
+) {
+    if let Some(index) = path.iter().position(|ancestor| *ancestor == key) {
+        let through = match path[index + 1..] {
+            [] => "".to_string(),
+            ref rest => format!(
+                " through {}",
+                rest.iter()
+                    .map(|(entity_name, selectable_name)| {
+                        format!("`{entity_name}.{selectable_name}`")
+                    })
+                    .collect::<Vec<_>>()
+                    .join(", ")
+            ),
+        };
+        errors.push(Diagnostic::new(
+            format!(
+                "`{}.{}` selects itself{through}. \
+                This is only allowed through a @loadable selection.",
+                key.0, key.1
+            ),
+            client_selectable_declaration_map_from_iso_literals(db)
+                .item
+                .get(&key)
+                .map(|declaration| declaration.location.to::<Location>()),
+        ));
+        return;
+    }
+    if !visited.insert(key) {
+        return;
+    }
+
+    let (Some(Ok(selection_set)), Some(parent_entity)) = (
+        reader_selection_set_map(db).get(&key),
+        flattened_entity_named(db, key.0),
+    ) else {
+        // reported by validate_selection_sets
+        return;
+    };
+    let selection_set = match selection_set {
+        SelectionType::Scalar(s) => s.lookup(db),
+        SelectionType::Object(o) => o.lookup(db),
+    };
+
+    let mut selected_client_selectables = vec![];
+    visit_selection_set(
+        db,
+        selection_set.item.selections.reference(),
+        parent_entity.lookup(db),
+        &mut |selection, parent_entity| {
+            let selectable_name = match selection {
+                SelectionType::Scalar(scalar_selection) => {
+                    if let ScalarSelectionDirectiveSet::Loadable(_) =
+                        scalar_selection.scalar_selection_directive_set
+                    {
+                        return;
+                    }
+                    scalar_selection.name.item
+                }
+                SelectionType::Object(object_selection) => object_selection.name.item,
+            };
+            if let Ok(Some(DefinitionLocation::Client(_))) =
+                selectable_named(db, parent_entity.name.item, selectable_name)
+            {
+                selected_client_selectables.push((parent_entity.name.item, selectable_name));
+            }
+        },
+    );
+
+    path.push(key);
+    for selected in selected_client_selectables {
+        visit_client_selectables_selected_by(db, selected, path, visited, errors);
+    }
+    path.pop();
 }
 
 /// Validate selectables:
